@@ -417,6 +417,11 @@ func (g *xmlGen) content(depth int, sb *strings.Builder) {
 			sb.WriteString(g.cdata())
 		case k < 7:
 			sb.WriteString(g.comment())
+			if r.Chance(1, 10) {
+				for j := r.Range(6, 12); j > 0; j-- {
+					sb.WriteString(r.Pick([]string{g.comment(), g.comment(), g.pi()}))
+				}
+			}
 		case k < 8:
 			sb.WriteString(g.pi())
 		default:
@@ -606,6 +611,18 @@ func C06(run *core.Run) {
 						doCase("matrix", []byte(doc), keep, guards)
 						nm++
 					}
+				}
+			}
+		}
+	}
+	// long runs of nodes that the minifier looks past (comments, PIs, empty CDATA) between two words
+	for L := 1; L <= 14; L++ {
+		for _, unit := range []string{"<!--m-->", "<?pi a=\"1\"?>", "<![CDATA[]]>", "<!--m--><?p?>"} {
+			run := strings.Repeat(unit, L)
+			for _, doc := range []string{"<r>t " + run + "t</r>", "<r>t" + run + " t</r>", "<r>t " + run + "</r>", "<r><b>t </b>" + run + "t</r>", "<r>t " + run + "<b>t</b></r>", "<r>t " + run + " t</r>"} {
+				for _, keep := range []bool{false, true} {
+					doCase("runs", []byte(doc), keep, guards)
+					nm++
 				}
 			}
 		}
